@@ -113,6 +113,7 @@ type Obligation struct {
 	Blk     *ssa.BasicBlock
 	File    string
 	Candidate bool // model comes from the ground (quantifier-free) weakening
+	Agree     int    // thorough tier: how many further solvers returned the same answer
 	RecCallee string // for rec-progress obligations: contract key of the callee
 	Extra     []pendFact // instances of recorded hypotheses at the goal's skolem constants
 }
